@@ -256,6 +256,11 @@ func qosOf(s string) message.QoS {
 }
 
 func (d *Driver) ctx(ms int) (context.Context, context.CancelFunc) {
+	if ms < 0 { // a context that is already done when the call starts
+		c, cancel := context.WithCancel(context.Background())
+		cancel()
+		return c, cancel
+	}
 	if ms > 0 {
 		return context.WithTimeout(context.Background(), time.Duration(ms)*time.Millisecond)
 	}
